@@ -118,6 +118,7 @@ func ruleFormatterSiblings(r *Report, rule string) {
 			if objOf(info, e) == curr {
 				return "curr"
 			}
+			e = ast.Unparen(resolveCopies(info, fi.Decl.Body, e)) // termEnd := termLocation.End
 			if sel, ok := e.(*ast.SelectorExpr); ok {
 				if objOf(info, sel.X) == frag && sel.Sel.Name == "End" {
 					return "f.End"
